@@ -12,7 +12,7 @@
 From Coq Require Import NArith List String Bool Lia.
 From Coq Require Import Strings.Byte.
 From PDL Require Import Base.Bits Base.Outcome Lang.Ast Lang.Sexp Analyzer.Schema Sem.RefEncode Rust.Encode
-     Proofs.DecodeSafe Proofs.BitfieldEncode Proofs.EncodeSafe Proofs.SchemaEnums Proofs.EncodedLen Proofs.EncodeSafeAll.
+     Proofs.DecodeSafe Proofs.BitfieldEncode Proofs.EncodeSafe Proofs.SchemaEnums Proofs.EncodedLen Proofs.EncodeSafeAll Proofs.EncodeSafeDecl.
 Import ListNotations.
 Open Scope N_scope.
 
@@ -128,3 +128,13 @@ Theorem C05_no_runtime_panic_for_every_field_kind :
       no_rt_panic (enc_fields fl sch rec_enc rec_len d all_fields cs obj payload_act payload_size fs p shift).
 Proof. exact enc_fields_all_nrp. Qed.
 Print Assumptions C05_no_runtime_panic_for_every_field_kind.
+
+(** ... lifted to WHOLE DECLARATIONS with their parents and nested structs, by induction on
+    fuel (Proofs/EncodeSafeDecl.v): for every file without a 64-bit `_size_` / `_elementsize_`
+    field and without a condition value above 1, every type of it and ANY value, encode never
+    panics at run time.  [side_condition_needed] shows the side condition is necessary (F44). *)
+Theorem C05_encode_never_panics_at_run_time :
+  forall (fuel : nat) (fl : file) (sch : schema) (id : string) (v : value),
+    arith_free_file fl = true -> no_rt_panic (rust_encode fuel fl sch id v).
+Proof. exact rust_encode_nrp. Qed.
+Print Assumptions C05_encode_never_panics_at_run_time.
